@@ -147,6 +147,24 @@ pub fn run(a: &Args) {
             o.count("long-rows");
         }
     }
+    // stream writes that are not aligned to rows: a first write ending in the middle of a row, then a write carrying whole rows and more
+    for &(color, depth, w) in &[(2u8, 8u8, 40u32), (0, 8, 64), (6, 16, 9), (0, 1, 600), (3, 4, 130), (4, 8, 33)] {
+        for parts in [vec![37usize, 1 << 20], vec![1, 1 << 20], vec![63, 64, 1 << 20], vec![65, 1, 1 << 20], vec![200, 7]] {
+            for filter in [0u8, 4, 5] {
+                let cfg = WCfg { w, h: 7, color, depth, animated: None, sep: false, compression: *rng.pick(&[1u8, 3, 8, 14]), filter, validate: false,
+                    palette: if color == 3 { Some((0..3 * (1usize << depth.min(8))).map(|_| rng.byte()).collect()) } else { None } };
+                let sz = *rng.pick(&[64usize, 4096]);
+                one(&mut o, &mut rng, &cfg, Some(sz), parts.clone(), 0, false);
+                o.count("unaligned-stream-writes");
+            }
+        }
+    }
+    // chunk buffers larger than 32 KiB with more than 32 KiB of compressed data (noise does not compress)
+    for size in [40_000usize, 65_536, 1 << 20] {
+        let cfg = WCfg { w: 300, h: if thorough { 300 } else { 180 }, color: 0, depth: 8, animated: None, sep: false, compression: *rng.pick(&[3u8, 8, 14]), filter: 0, validate: false, palette: None };
+        one(&mut o, &mut rng, &cfg, Some(size), vec![5000], 0, false);
+        o.count("large-chunk-buffers");
+    }
     o.mark("done");
     o.finish();
 }
